@@ -533,10 +533,10 @@ func (w *c07Worker) kill() {
 
 // When many requests got no answer the violation is established; the generators stop producing further
 // cases instead of waiting out the deadline hundreds of times (a removed cycle test makes every cyclic file
-// set hang).  The known hanging inputs of the corpora account for at most 6 of these.
+// set hang).
 var c07NoAnswer int
 
-func c07GiveUp() bool { return c07NoAnswer >= 14 }
+func c07GiveUp() bool { return c07NoAnswer >= 8 }
 
 // c07Call runs one request in the worker with a hard deadline; on expiry (or death of the worker:
 // fatal error such as a stack overflow) the worker is killed / restarted and the class says so.
